@@ -525,9 +525,13 @@ def gen_C09(rng, tier, changed):
                 ops = build(sh, 0, r, c, order, how='rowreshape')
                 if k % 3 == 0:
                     ops.append(op(rng.choice(['transpose', 'switch_order_wr', 'switch_order']), 0))
+                # reshape and resize act on separate copies of the same matrix
+                ops.append(op('clone', 1, 0))
                 ops.append(op('reshape', 0, tr_, tc))
                 if tr_ * tc <= 64 or tr_ * tc > UMAX or 40 * tr_ * tc > IMAX:
-                    ops.append(op('resize', 0, tr_, tc))
+                    ops.append(op('resize', 1, tr_, tc))
+                    ops.append(op('shape', 1))
+                    ops.append(op('resize', 1, r, c))
                 ops.append(op('size', 0))
                 cases.append(Case(f'C09-{r}x{c}o{order}t{k}', ops, 'tr'))
     # failed in-place operations leave everything untouched
@@ -560,6 +564,25 @@ def gen_C09(rng, tier, changed):
             r, c = sh.s[0][0], sh.s[0][1]
         cases.append(Case(f'C09-r{i}', ops, 'tr'))
     return cases
+
+
+def oracle_C09(case, hlines):
+    out = oracle_unchanged_on_error(case, hlines)
+    ops = [o for o in case.ops if o[1] != 'fault']
+    prev = None
+    for i, (o, line) in enumerate(zip(ops, hlines)):
+        if prev is not None and o[1] in ('reshape', 'resize') and obs_of(line) == '()':
+            a, b = parse_slot(prev, o[2][0]), parse_slot(line, o[2][0])
+            r, c = o[2][1], o[2][2]
+            if a and b:
+                n = min(len(a[3]), r * c)
+                want = a[3][:n] + (['D'] * (r * c - n) if case.elem == 'tr' else b[3][n:])
+                if (b[1], b[2]) != (r, c) or b[0] != a[0] or b[3] != want or (o[1] == 'reshape' and len(a[3]) != r * c):
+                    out.append(dict(kind='oracle', op_index=i, op=o[1], observed=line.split(' ;; ')[1][:300],
+                                    expected=f'{a[0]}:{r}x{c}:{want}'[:300],
+                                    detail=f'{o[1]}({r},{c}) did not set the requested shape over the first min(old,new) elements of the memory-order sequence'))
+        prev = line
+    return out
 
 
 def oracle_unchanged_on_error(case, hlines):
@@ -708,7 +731,7 @@ SUITES = {
     'C04': dict(gen=gen_C04, files=['src/index.rs'], rule='every shape <= 3x3 plus degenerate and 1x6/6x1, both orders, all (r,c) in 0..=extent+1 for three index types, extreme usize values, stateful accessor scripts'),
     'C05': dict(gen=gen_C05, oracle=oracle_C05, files=['src/lib.rs', 'src/index.rs', 'src/shape.rs', 'src/order.rs'],
                 rule='every shape r,c <= bound in both orders through transpose and the five order operations, plus random compositions'),
-    'C09': dict(gen=gen_C09, oracle=oracle_unchanged_on_error, files=['src/lib.rs', 'src/swap.rs', 'src/arithmetic.rs', 'src/shape.rs'],
+    'C09': dict(gen=gen_C09, oracle=oracle_C09, files=['src/lib.rs', 'src/swap.rs', 'src/arithmetic.rs', 'src/shape.rs'],
                 rule='source shapes <= 3x4 x both orders x valid / mismatching / overflowing targets for reshape and resize; random failing in-place operations'),
     'C10': dict(gen=gen_C10, oracle=oracle_C10, files=['src/swap.rs', 'src/index.rs'],
                 rule='all (m,n) in 0..=extent+1 for swap_rows/swap_cols on every shape <= 4x4 in both orders; coordinate pairs incl. equal and out of range, three index kinds, wrapping and stateful indices'),
@@ -1905,6 +1928,14 @@ def gen_C08(rng, tier, changed):
                 add('multiply', [es, n, m, o1, o2], want)
                 if es == 8:
                     add('mul_like', [es, n, m, o1, o2], want)
+    # operand and output element types of different sizes (the decision must use the OUTPUT size)
+    for (esl, esu) in ((1, 8), (8, 1), (0, 8), (8, 0)):
+        for (n, m) in [(2**60, 1), (1, 2**60), (2**61, 2), (IMAX // 8 + 1, 1), (IMAX // 8, 1), (IMAX, 1), (IMAX + 1, 1), (2**32, 2**32), (3, 5), (0, 7), (2**62, 3), (UMAX, 1), (1, UMAX)]:
+            want = expect_decision(esu, n, m)
+            if want.startswith('Some') and n * m > 2048:
+                continue
+            for (o1, o2) in ((0, 0), (0, 1), (1, 0), (1, 1)):
+                add('multiply_mixed', [esl, esu, n, m, o1, o2], want)
     for c_ in cases:
         if c_.meta.get('want') is None:
             fn, a = c_.fn, c_.args
